@@ -317,7 +317,13 @@ func (w *World) ProjectEvm() J {
 			members = append(members, []interface{}{w.N.Name(a.Hex()), limbs(c.SetPowers[i].Uint64())})
 		}
 		cp := c.Checkpoint()
-		out[chain] = J{"blk": unum(c.Height()), "vsn": unum(c.LastValsetNonce()), "evn": unum(c.LastEventNonce()), "cust": cust, "lbn": lbn, "bal": bal,
+		// the digest the hub's code computes for the same validator set
+		var signers []*mhubtypes.ExternalSigner
+		for i, a := range c.SetAddrs {
+			signers = append(signers, &mhubtypes.ExternalSigner{ExternalAddress: a.Hex(), Power: c.SetPowers[i].Uint64()})
+		}
+		cph := mhubtypes.SignerSetTx{Nonce: c.SetNonce, Signers: signers}.GetCheckpoint([]byte(w.Cfg.GravityId))
+		out[chain] = J{"cph": hex.EncodeToString(cph[:4]), "blk": unum(c.Height()), "vsn": unum(c.LastValsetNonce()), "evn": unum(c.LastEventNonce()), "cust": cust, "lbn": lbn, "bal": bal,
 			"set": J{"n": unum(c.SetNonce), "m": members}, "cp": hex.EncodeToString(cp[:4]), "thr": limbs(evmThreshold), "log": len(es.Log)}
 	}
 	return out
